@@ -175,7 +175,7 @@ K("C05/keys/castling-delta", ["C05"], "zobrist::verif_kani::c05_castling_delta_k
 
 BD = "board::verif_kani::"
 K("C05/scratch/zobrist-hash", ["C05", "C19"], BD + "c05_zobrist_hash_is_ref_hash", ["RawBoard::zobrist_hash"],
-  "for all raw boards (13^64 placements, side, rights, mark): zobrist_hash == side key ^ mark key ^ rights key ^ XOR of piece keys of the occupied squares; the result does not depend on either counter", timeout=1800)
+  "for all raw boards (13^64 placements, side, rights, mark): zobrist_hash == side key ^ mark key ^ rights key ^ XOR of piece keys of the occupied squares; the result does not depend on either counter", timeout=1800, mem_gb=32, mem_est=14)
 K("C07/insufficient", ["C07"], BD + "c07_insufficient_material", ["Board::is_insufficient_material"],
   "for all well-formed boards: is_insufficient_material == (besides kings: nothing, or a single knight, or only bishops all on one square colour), counted over the squares",
   assumes=["C20/consts/lines-colours"])
@@ -184,10 +184,10 @@ K("C07/calc-outcome", ["C07", "C14"], BD + "c07_calc_outcome_precedence", ["Boar
   assumes=["C07/insufficient", "C16/check-queries/w", "C16/check-queries/b"] + TABLES)
 K("C11/try-from/accepts", ["C11", "C02", "C19"], BD + "c11_try_from_accepts_exactly_valid", ["<Board as TryFrom<RawBoard>>::try_from"],
   "for all raw boards: try_from is Ok iff (mark on the right rank, <= 16 men a side, exactly one king each, no pawn on rank 1/8, side not to move not in check); on Err the reported condition (with its square / colour) really holds",
-  assumes=ATT, timeout=3000, mem_gb=20)
+  assumes=ATT, timeout=3000, mem_gb=32, mem_est=12)
 K("C11/try-from/normalised", ["C11", "C02", "C05"], BD + "c11_try_from_result_is_normalised_inv", ["<Board as TryFrom<RawBoard>>::try_from"],
   "for all raw boards accepted: result == input except rights without king/rook at home and a mark without enemy pawn / with an occupied square behind it; derived sets well-formed at every square; stored hash == from-scratch hash",
-  assumes=ATT + ["C05/scratch/zobrist-hash"], timeout=3000, mem_gb=20)
+  assumes=ATT + ["C05/scratch/zobrist-hash"], timeout=3000, mem_gb=32, mem_est=12)
 K("C11/spec/idempotent", ["C11"], BD + "c11_normalise_idempotent_and_valid", [],
   "spec-level lemma: ref_normalise is idempotent and preserves ref_valid (so re-validating a validated board changes nothing)", timeout=1800)
 
